@@ -565,7 +565,14 @@ def make_handler(bi, k, h):
             RT.rec('hEnd', i=i, out='ret')
             return v
         except asyncio.CancelledError:
-            RT.rec('hEnd', i=i, out='cancelled')
+            RT.rec('hCancel', i=i)
+            try:
+                if h.get('cleanup'):
+                    # the handler's own cleanup after being cancelled (it does not swallow the cancellation);
+                    # a second cancellation (e.g. its own deadline passing meanwhile) cuts the cleanup short
+                    await asyncio.sleep(h['cleanup'])
+            finally:
+                RT.rec('hEnd', i=i, out='cancelled')
             raise
         except Exception:
             RT.rec('hEnd', i=i, out='raise')
